@@ -521,7 +521,8 @@ def resolve_name(obj, func, args, unknown=False):
             attr_owner = resolve_name(obj.value, func, args)
             try:
                 return getattr(attr_owner, obj.attr)
-            except AttributeError:
+            except Exception:
+                # not there, or a property that raises whatever it likes
                 raise UnresolvableName(obj)
         else:
             raise UnresolvableName(obj)
@@ -533,7 +534,12 @@ def resolve_name(obj, func, args, unknown=False):
 
 def forward_signatures(func, calls, args, kwargs, sig):
     if args or kwargs:
-        bap = sig.bind_partial(*args, **kwargs)
+        try:
+            bap = sig.bind_partial(*args, **kwargs)
+        except TypeError:
+            # the object cannot take what it is bound to: plain retrieval
+            # reports that the way inspect does
+            raise UnknownForwards
     else:
         bap = EmptyBoundArguments()
     def rn(obj, unknown=True):
@@ -549,9 +555,14 @@ def forward_signatures(func, calls, args, kwargs, sig):
         except UnresolvableName:
             raise UnknownForwards
         fwdargsvals = [rn(arg) for arg in fwdargs]
-        fwdargsvals.extend(rn(fwdvarargs))
         fwdkwargsvals = dict((n, rn(arg)) for n, arg in fwdkwargs.items())
-        fwdkwargsvals.update(rn(fwdvarkwargs))
+        try:
+            fwdargsvals.extend(rn(fwdvarargs))
+            fwdkwargsvals.update(rn(fwdvarkwargs))
+        except (TypeError, ValueError):
+            # what is spread into the call is, for now, not a sequence
+            # or not a mapping (None until it is set, say)
+            raise UnknownForwards
         using_partial = wrapped_func == functools.partial
         if using_partial:
             if not fwdargsvals:
